@@ -10,6 +10,7 @@ import (
 	"github.com/opsidian/parsley/parser"
 	"github.com/opsidian/parsley/parsley"
 	"github.com/opsidian/parsley/text"
+	"github.com/opsidian/parsley/text/terminal"
 
 	"verifharness/internal/gram"
 	"verifharness/internal/run"
@@ -200,6 +201,36 @@ func c17families() []c17family {
 			g.NTs[0] = g.Mk(gram.OpAny, g.Mk(gram.OpSeqOf, g.Ref(0), g.Rune(l[1]), g.Rune(l[0])), g.Rune(l[0]))
 			return c17gram(g, tick), string(l[0]) + rep(string(l[1])+string(l[0]), (n-1)/2)
 		}},
+		{"keyword blocks B -> begin B* end | begin B* fin | x (terminal.Word, shared prefix)", true, func(r *rand.Rand, n int, tick func(*parsley.Context)) (parsley.Parser, string) {
+			// library parts only: Word terminals with left-trimmed whitespace; two alternatives share the prefix "begin B*"
+			kw := [][3]string{{"begin", "end", "fin"}, {"if", "fi", "else"}, {"do", "done", "od"}}[r.Intn(3)]
+			tok := func(p parsley.Parser) parsley.Parser { return text.LeftTrim(p, text.WsSpacesNl) }
+			var block parser.Func
+			body := combinator.Memoize(combinator.Many(&block))
+			inner := combinator.Any(
+				combinator.SeqOf(tok(terminal.Word("kw", kw[0], 1)), body, tok(terminal.Word("kw", kw[1], 2))),
+				combinator.SeqOf(tok(terminal.Word("kw", kw[0], 1)), body, tok(terminal.Word("kw", kw[2], 3))),
+				tok(terminal.Word("kw", "x", 0)),
+			)
+			block = combinator.Memoize(parser.Func(func(ctx *parsley.Context, lrc data.IntMap, pos parsley.Pos) (parsley.Node, data.IntSet, parsley.Error) {
+				tick(ctx)
+				return inner.Parse(ctx, lrc, pos)
+			}))
+			// nested blocks closed alternately by the two closing keywords, with a few siblings
+			s := "x"
+			for i := 0; len(s) < n-len(kw[0])-len(kw[2])-3; i++ {
+				cl := kw[1+i%2]
+				if i%3 == 2 {
+					s = kw[0] + " " + s + " x " + cl
+				} else {
+					s = kw[0] + " " + s + " " + cl
+				}
+			}
+			root := combinator.Sentence(text.Trim(&block))
+			return parser.Func(func(ctx *parsley.Context, lrc data.IntMap, pos parsley.Pos) (parsley.Node, data.IntSet, parsley.Error) {
+				return root.Parse(ctx, lrc, pos)
+			}), s
+		}},
 		{"arithmetic expr/term/factor", true, func(r *rand.Rand, n int, tick func(*parsley.Context)) (parsley.Parser, string) {
 			a := newArith()
 			ops := "+*-/"
@@ -250,6 +281,8 @@ func c17corrupt(in string, where string) string {
 	case "bad-second":
 		if len(b) > 1 {
 			b[1] = '!'
+		} else {
+			b[0] = '!'
 		}
 	case "bad-middle":
 		b[len(b)/2] = '!'
@@ -284,7 +317,7 @@ func c17run(f c17family, seed int64, n int, limit int, where string) (res c17res
 			}
 		}()
 		var root parsley.Parser = p
-		if !strings.HasPrefix(f.name, "arithmetic") {
+		if !strings.HasPrefix(f.name, "arithmetic") && !strings.HasPrefix(f.name, "keyword blocks") {
 			root = combinator.Sentence(p)
 		}
 		node, err := parsley.Parse(ctx, root)
